@@ -293,4 +293,106 @@ theorem get_inband (tb : Rs.Poa.Traceback) (i j : Nat) (cs : List Cell) (s e : N
   simp only [Rs.idx_of_getElem? h, Res.ok_bind, c1, if_true, Rs.sub_ok h1, Rs.idx_ok h3, Res.pure_eq_ok]
   simp [List.getD, List.getElem?_eq_getElem h3]
 
+/-! ### generic list / `Option`-loop lemmas used by the proofs about `custom` -/
+
+theorem set_append_len {α : Type} (l : List α) (a b : α) (r : List α) : (l ++ a :: r).set l.length b = l ++ b :: r := by
+  induction l with
+  | nil => rfl
+  | cons x l ih => simp [ih]
+
+theorem getElem?_append_len {α : Type} (l : List α) (a : α) (r : List α) : (l ++ a :: r)[l.length]? = some a := by
+  induction l with
+  | nil => rfl
+  | cons x l ih => simp [ih]
+
+theorem getElem?_set_ne' {α : Type} (l : List α) (i k : Nat) (a : α) (h : i ≠ k) : (l.set i a)[k]? = l[k]? := by
+  simp [List.getElem?_set, h]
+
+/-- candidate and insertion scan of a row, column by column (as the Rust loop interleaves them) -/
+def colLoopC (cand : Nat → Option Cell) (gap : Int) (iOp : POp) : Cell → List Nat → Option (List Cell)
+  | _, [] => some []
+  | left, j :: js =>
+    match cand j with
+    | none => none
+    | some c =>
+      match I32.add left.score gap with
+      | none => none
+      | some s =>
+        match colLoopC cand gap iOp (cmax c ⟨s, iOp⟩) js with
+        | none => none
+        | some rest => some (cmax c ⟨s, iOp⟩ :: rest)
+
+theorem colLoopC_of (cand : Nat → Option Cell) (gap : Int) (iOp : POp) : ∀ (js : List Nat) (left : Cell) (cands cs : List Cell),
+    mapC cand js = some cands → insScanC gap iOp left cands = some cs → colLoopC cand gap iOp left js = some cs
+  | [], left, cands, cs, h1, h2 => by
+    simp only [mapC, Option.some.injEq] at h1; subst h1
+    simp only [insScanC, Option.some.injEq] at h2; subst h2; rfl
+  | j :: js, left, cands, cs, h1, h2 => by
+    obtain ⟨c, cands', hc, h1', rfl⟩ := mapC_cons_some h1
+    simp only [insScanC] at h2
+    cases hs : I32.add left.score gap with
+    | none => rw [hs] at h2; cases h2
+    | some s =>
+      rw [hs] at h2
+      simp only at h2
+      cases hr : insScanC gap iOp (cmax c ⟨s, iOp⟩) cands' with
+      | none => rw [hr] at h2; cases h2
+      | some rest =>
+        rw [hr] at h2
+        simp only [Option.some.injEq] at h2
+        simp only [colLoopC, hc, hs, colLoopC_of cand gap iOp js _ cands' rest h1' hr, h2]
+
+theorem insScanC_length (gap : Int) (iOp : POp) : ∀ (cands : List Cell) (left : Cell) (cs : List Cell),
+    insScanC gap iOp left cands = some cs → cs.length = cands.length
+  | [], left, cs, h => by simp only [insScanC, Option.some.injEq] at h; subst h; rfl
+  | c :: cands, left, cs, h => by
+    simp only [insScanC] at h
+    cases hs : I32.add left.score gap with
+    | none => rw [hs] at h; cases h
+    | some s =>
+      rw [hs] at h
+      simp only at h
+      cases hr : insScanC gap iOp (cmax c ⟨s, iOp⟩) cands with
+      | none => rw [hr] at h; cases h
+      | some rest =>
+        rw [hr] at h
+        simp only [Option.some.injEq] at h
+        subst h
+        simp [insScanC_length gap iOp cands _ rest hr]
+
+theorem getD_append_default {α : Type} (l : List α) (d : α) (k : Nat) : (l ++ [d]).getD k d = l.getD k d := by
+  simp only [List.getD_eq_getElem?_getD]
+  rcases Nat.lt_or_ge k l.length with h | h
+  · rw [List.getElem?_append_left h]
+  · rw [List.getElem?_append_right h, List.getElem?_eq_none h]
+    cases k - l.length <;> simp
+
+theorem colUpdate_length (i : Nat) : ∀ (mcs : List (Int × Nat)) (cs : List Cell), (colUpdate i mcs cs).length = mcs.length
+  | [], cs => by cases cs <;> simp [colUpdate]
+  | mc :: mcs, [] => by simp [colUpdate]
+  | mc :: mcs, c :: cs => by simp [colUpdate, colUpdate_length i mcs cs]
+
+theorem enumerate_eq {α : Type} (l : List α) : Rs.enumerate l = Rs.enumFrom 0 l := rfl
+
+theorem bRow0C_shape {gap yclip : Int} {n : Nat} {r0 : BRow} (h : bRow0C gap yclip n = some r0) :
+    r0.start = 0 ∧ r0.stop = n + 1 ∧ r0.cells.length = n + 1 := by
+  have hb : bRow0C gap yclip n = (match I32.mul gap (I32.ofUsize 0) with
+      | none => none
+      | some _ => match mapC (row0Cell gap yclip) (List.range' 1 n) with
+        | none => none
+        | some cs => some { cells := ⟨0, .m none⟩ :: cs, start := 0, stop := n + 1 }) := rfl
+  rw [hb] at h
+  cases h0 : I32.mul gap (I32.ofUsize 0) with
+  | none => rw [h0] at h; cases h
+  | some g0 =>
+    rw [h0] at h
+    simp only at h
+    cases h1 : mapC (row0Cell gap yclip) (List.range' 1 n) with
+    | none => rw [h1] at h; cases h
+    | some cs =>
+      rw [h1] at h
+      simp only [Option.some.injEq] at h
+      subst h
+      simp [mapC_length h1]
+
 end RbV.Thm.GenSrcPoaAlign
